@@ -10,6 +10,7 @@ import (
 	"os"
 	"os/exec"
 	"regexp"
+	"runtime"
 	"runtime/debug"
 	"sort"
 	"strings"
@@ -322,8 +323,28 @@ type taskLog struct {
 	res []opResult
 }
 
-func (e *engine) Run(src *vs.Source, tier string, idx int64) *simkit.RunResult {
-	res := &simkit.RunResult{Stats: map[string]int64{}, Max: map[string]int64{}}
+func (e *engine) Run(src *vs.Source, tier string, idx int64) (res *simkit.RunResult) {
+	res = &simkit.RunResult{Stats: map[string]int64{}, Max: map[string]int64{}}
+	var thePool *pool
+	defer func() {
+		// The oracle reads operands and results through the library; if one
+		// of them has been corrupted those reads can panic. That is a
+		// violation (operand changed) if the pool no longer verifies, and
+		// harness trouble otherwise.
+		if r := recover(); r != nil {
+			buf := make([]byte, 8<<10)
+			buf = buf[:runtime.Stack(buf, false)]
+			msg := ""
+			if thePool != nil {
+				msg = thePool.verify()
+			}
+			if msg != "" {
+				res.Violations = []simkit.Violation{{Class: "operand-changed", Sig: "operand-changed/unreadable", Detail: fmt.Sprintf("operand-changed/unreadable: %s; the oracle panicked reading it: %v\n%s", msg, r, buf)}}
+			} else {
+				res.Violations = []simkit.Violation{{Class: "machinery", Sig: "machinery/oracle-panic", Detail: fmt.Sprintf("%v\n%s", r, buf)}}
+			}
+		}
+	}()
 	var viols []simkit.Violation
 	sigSeen := map[string]bool{}
 	fail := func(class, opname, clause, detail string) {
@@ -344,6 +365,12 @@ func (e *engine) Run(src *vs.Source, tier string, idx int64) *simkit.RunResult {
 	}
 	defer sc.release()
 	p := sc.p
+	thePool = p
+	if p.general {
+		res.Stats["pools_general_position_class"]++
+	} else {
+		res.Stats["pools_lattice_class"]++
+	}
 	if p.frozen {
 		res.Stats["pools_in_frozen_memory"]++
 	} else {
@@ -648,7 +675,7 @@ func frameOf(stack string) string {
 }
 
 func (sc *scenario) sample(sim *vs.Sim) map[string]interface{} {
-	s := map[string]interface{}{"tasks": sc.nt, "pool_frozen": sc.p.frozen}
+	s := map[string]interface{}{"tasks": sc.nt, "pool_frozen": sc.p.frozen, "general_position_class": sc.p.general}
 	var ops []string
 	for t, script := range sc.scripts {
 		for _, op := range script {
